@@ -144,7 +144,7 @@ OPS = [op_add_object, op_set_if_equals, op_add_if_new, op_remove, op_pack_refs, 
        op_config_write, op_commit, op_add_pack, op_pack_loose, op_repack, op_gc]
 
 
-def _check_image(eng, img, pre_refs, reach, expect, opname, k, where):
+def _check_image(eng, img, pre_refs, reach, expect, opname, k, where, strict_values=True):
     tag = f"[{opname} crash before step {k}: {where}]"
     try:
         r = Repo(img)
@@ -162,13 +162,16 @@ def _check_image(eng, img, pre_refs, reach, expect, opname, k, where):
             old = pre_refs.get(n)
             new = expect.get(n, old) if n in expect else old
             got = refs.get(n)
-            eng.prove(got in (old, new), f"{tag} ref {n!r} holds its old or its new value (got {got!r})")
+            if strict_values:
+                eng.prove(got in (old, new), f"{tag} ref {n!r} holds its old or its new value (got {got!r})")
             if got is not None:
                 try:
                     o = r.object_store[got]
                     eng.prove(o.id == got, f"{tag} object named by ref {n!r} re-hashes to its name")
                     if isinstance(o, Commit):
-                        r.object_store[o.tree]
+                        for e_ in r.object_store[o.tree].iteritems():
+                            if e_.mode != 0o160000:
+                                r.object_store[e_.sha]
                 except KeyError:
                     eng.fail(f"{tag} ref {n!r} names an object that is missing")
                 except Exception as e:
@@ -255,6 +258,18 @@ def h_crash(eng, opk=0, packed=False, kmax=60, powerloss=False):
                 shutil.rmtree(d2, ignore_errors=True)
         where = f"{taken[0][0]} {os.fsdecode(taken[0][1])[len(d):] if taken[0][1] else ''}"
         _check_image(eng, img, pre_refs, reach, expect, op.__name__, k, where)
+        # the user repeats the interrupted command on what the crash left behind: whether it now succeeds or stops with an
+        # error (e.g. a stale lock), the repository must still be consistent
+        r3 = Repo(img)
+        try:
+            try:
+                op(r3, ids)
+                retried = "succeeded"
+            except Exception as e:
+                retried = f"stopped with {type(e).__name__}"
+        finally:
+            r3.close()
+        _check_image(eng, img, pre_refs, reach, expect, f"{op.__name__}, then repeated ({retried})", k, where, strict_values=False)
     finally:
         shutil.rmtree(d, ignore_errors=True)
         shutil.rmtree(img, ignore_errors=True)
